@@ -132,6 +132,14 @@ def form_lines(st):
         return _L("@S.deco('%s')" % p[0], "async def sim_ad%d(pid):" % i, "    return await S.aop(pid)")
     if f == 'decodef2':
         return _L("@S.deco('%s')" % p[0], "@S.deco('%s')" % p[1], "def sim_dd%d(pid):" % i, "    return S.op(pid)")
+    if f == 'emitnoeol':
+        # writes a token and leaves the line unfinished
+        return _L("S.emitnoeol('%s')" % p[0])
+    if f == 'bgtask':
+        # a background task that is still pending when the statement group ends:
+        # the event loop cancels it, its clean-up code runs (and is part of the program)
+        return _L("_bg%d = asyncio.ensure_future(S.abg('%s', '%s'))" % (i, p[0], p[1]),
+                  "sim_ba%d = await S.aop('%s')" % (i, p[2]))
     if f == 'emitop':
         # called code that prints *and* returns a value
         return _L("S.emitop('%s')" % p[0])
@@ -158,6 +166,10 @@ def form_out(st):
         return [tok(p[0]) + '\n']
     if f == 'say':
         return [st.get('text', 'ok') + '\n']
+    if f == 'emitnoeol':
+        return [tok(p[0])]
+    if f == 'bgtask':
+        return [tok(p[1]) + '\n']
     if f in ('for', 'try', 'semiemit'):
         return [tok(p[0]) + '\n', tok(p[1]) + '\n']
     if f == 'if':
@@ -171,11 +183,11 @@ def form_out(st):
     return []
 
 
-EXPR_FORMS = {'expr', 'print', 'emit', 'say', 'multiline', 'semiemit', 'tqprint', 'callhelper_expr', 'callhelper_emit',
+EXPR_FORMS = {'expr', 'print', 'emit', 'emitnoeol', 'say', 'multiline', 'semiemit', 'tqprint', 'callhelper_expr', 'callhelper_emit',
               'callmod_expr', 'awaitexpr', 'awaitprint', 'names', 'emitop'}
 VALUE_FORMS = {'expr': 0, 'multiline': 0, 'callhelper_expr': 0, 'callmod_expr': 0, 'awaitexpr': 0, 'emitop': 0}
 NOCODE_FORMS = {'comment', 'directive'}
-ASYNC_FORMS = {'await', 'awaitexpr', 'awaitprint', 'gather', 'asyncwith', 'asyncfor', 'awaitco'}
+ASYNC_FORMS = {'await', 'awaitexpr', 'awaitprint', 'gather', 'asyncwith', 'asyncfor', 'awaitco', 'bgtask'}
 
 
 def is_expr(st):
